@@ -44,16 +44,17 @@ def run_driver(R, exe, args, env, timeout, tag):
         raise Broken("driver exit rc=%s without mismatch (%s):\n%s" % (rc, tag, out[-3000:]))
     if rc != 0:
         R.extra.setdefault("driver_crash_output", out[-1500:])
-    R.traces += stats.get("programs", 0)
-    R.evaluations += stats.get("steps", 0)
-    R.distinct_nontrivial += stats.get("nontrivial", 0)
-    if not stats.get("paths_complete", True):
-        R.exhaustive = False
-    R.extra.setdefault("replay_runs", []).append(dict(stats, config=tag, wall_s=round(wall, 1)))
+    with R.lock:
+        R.traces += stats.get("programs", 0)
+        R.evaluations += stats.get("steps", 0)
+        R.distinct_nontrivial += stats.get("nontrivial", 0)
+        if not stats.get("paths_complete", True):
+            R.exhaustive = False
+        R.extra.setdefault("replay_runs", []).append(dict(stats, config=tag, wall_s=round(wall, 1)))
     return stats
 
 
-def e1_dump(R, spec, cfg, tag, workers=8, timeout=900, expect_violation=None):
+def e1_dump(R, spec, cfg, tag, workers=8, timeout=900):
     """TLC exhaustive run with graph dump. Returns (states, edges, inits)."""
     d = vplib.rundir("e1." + tag)
     dot = os.path.join(d, "g.dot")
@@ -72,8 +73,8 @@ def e1_dump(R, spec, cfg, tag, workers=8, timeout=900, expect_violation=None):
     return d, g
 
 
-def e1e2(R, spec, cfg, tag, canon, exe, env, D, budget, walks, L, seed, timeout=1500):
-    r = e1_dump(R, spec, cfg, tag)
+def e1e2(R, spec, cfg, tag, canon, exe, env, D, budget, walks, L, seed, timeout=1500, workers=8):
+    r = e1_dump(R, spec, cfg, tag, workers=workers)
     if r is None:
         return
     d, (states, edges, inits) = r
@@ -168,10 +169,11 @@ def c12(prop, tier, seed):
     D = 6 if quick else 8
     budget = 400000 if quick else 30000000
     walks = 2000 if quick else 200000
-    for kind, suf, dtor, cmp_ in variants:
+    def task(kind, suf, dtor, cmp_):
         tag = "Seqs_%s_%s" % (kind, suf)
         env = {"VP_KIND": kind, "VP_DTOR": str(dtor), "VP_CMP": str(cmp_)}
-        e1e2(R, "Seqs.tla", tag + ".cfg", tag, seqs_canon, exe, env, D, budget, walks, 24, seed)
+        return lambda: e1e2(R, "Seqs.tla", tag + ".cfg", tag, seqs_canon, exe, env, D, budget, walks, 24, seed, workers=2)
+    vplib.parallel([task(*v) for v in variants], max_workers=8)
     R.rule = ("programs = edge sequences of the dumped TLC graph of Seqs.tla: all maximal paths of length <= %d from the "
               "initial state (budget %d per config), an edge cover, and %d seeded random walks of length 24, per "
               "container kind x destructor x comparator; non-trivial = contains an iterator mutation "
@@ -233,4 +235,40 @@ def c10(prop, tier, seed):
               "or owns/is a nested block gets unreferenced; distinct by action-label sequence" % D)
     R.assumptions = ["references are dropped only by their owner (precondition)", "allocator = ledger installed as memhook",
                      "ASan/UBSan attached", "bounds: 3 blocks, <= 3 references each"]
+    return R.finish()
+
+
+# ------------------------------------------------------------------------------------------
+# C11 - ordered set (BST)
+
+def bst_canon(usercmp):
+    def canon(st):
+        key = (lambda e: (e + 1) // 2) if usercmp else (lambda e: e)
+        el = sorted(st["elems"]["__set__"], key=key)
+        dead = [i + 1 for i, f in enumerate(st["fate"]) if f == "dead"]
+        proj = "%s|%d|%d|%s" % (vplib.ints(el), len(el), 1 if st["it"]["on"] else 0, vplib.ints(dead))
+        return vplib.ints(st["obs"]), proj
+    return canon
+
+
+@check("C11")
+def c11(prop, tier, seed):
+    R = Result(prop, tier, seed)
+    exe = vplib.build("drv_bst", ["utils", "structs"], ["drv_bst.c"])
+    quick = tier == "quick"
+    D = 7 if quick else 9
+    budget = 600000 if quick else 40000000
+    walks = 2000 if quick else 200000
+
+    def task(suf, dtor, ucmp):
+        tag = "Bst_" + suf
+        env = {"VP_DTOR": str(dtor), "VP_USERCMP": str(ucmp)}
+        return lambda: e1e2(R, "Bst.tla", tag + ".cfg", tag, bst_canon(ucmp), exe, env, D, budget, walks, 30, seed, workers=4)
+    vplib.parallel([task("du", 1, 1), task("dp", 1, 0), task("nu", 0, 1), task("np", 0, 0)], max_workers=4)
+    R.rule = ("programs = edge sequences of the dumped TLC graph of Bst.tla (5 elements; user comparator with equal keys / "
+              "default comparator on addresses 2^31 and 2^32 apart): all maximal paths of <= %d mutating steps with every "
+              "query (find, in-order with early stop, pre/post-order shape consistency, iterator get) executed at every node, "
+              "an edge cover, seeded random walks; non-trivial = a removal with >= 3 elements present followed by further "
+              "operations" % D)
+    R.assumptions = ["no mutation behind a live iterator (precondition)", "ASan/UBSan attached", "bounds: 5 elements"]
     return R.finish()
